@@ -3299,7 +3299,7 @@ sexp sexp_list_to_uvector_op(sexp ctx, sexp self, sexp_sint_t n, sexp etype, sex
   sexp ls2, tmp;
   sexp_assert_type(ctx, sexp_fixnump, SEXP_FIXNUM, etype);
   sexp_gc_var1(res);
-  if (!sexp_listp(ctx, ls)) {
+  if (sexp_not(sexp_listp(ctx, ls))) {
     res = sexp_exceptionp(ls) ? ls
       : sexp_xtype_exception(ctx, self, "list->uvector expected a list", ls);
   } else {
